@@ -11,7 +11,7 @@ META = {
              "after every operation return value / exception class compared with a dict model, full comparison of every session on both "
              "load paths every 5 steps; distinct = hash of the op sequence; non-trivial = sequence has a duplicate store, a renumbering "
              "and >= 2 sessions"),
-    "assumptions": ["numbers >= 2^63 and set_seq_num(<=0) are outside the domain (SQLite cannot store them / the method asserts)"],
+    "assumptions": ["numbers >= 2^63 are outside the domain for stored messages (SQLite cannot store them); a renumbering to such a number or to <= 0 must be refused as a whole"],
 }
 REQUIRED_ORACLES = ["op-outcome", "full-compare", "two-load-paths"]
 NSHARDS = 16
@@ -150,7 +150,11 @@ def run_seq(acc, rnd, nops, cid, filename):
             # a call the journal refuses (a counter below 1): refused means nothing changed - not the store, and not the session object
             # the caller holds, from which the next valid call would write
             s.next_num_in, s.next_num_out = m["in"], m["out"]
-            no, ni = rnd.choice([(5, 0), (0, 3), (-1, None), (None, 0), (7, -2)])
+            no, ni = rnd.choice([(5, 0), (0, 3), (-1, None), (None, 0), (7, -2),
+                                 # numbers SQLite cannot store: refused by the database in the middle of the call - nothing of the call may stay
+                                 (2 ** 63 + 5, None), (None, 2 ** 63 + 1), (3, 2 ** 64), (2 ** 70, 2), (None, 2 ** 63), (2 ** 63, None), (2 ** 63, 4)])
+            if no is not None and no > 2 ** 62 or ni is not None and ni > 2 ** 62:
+                acc.add("renumberings_refused_by_the_database")
             before_obj = (s.next_num_out, s.next_num_in)
             try:
                 j.set_seq_num(s, next_num_out=no, next_num_in=ni)
